@@ -49,7 +49,18 @@ class LiteralTypeHint(TypeHint):
         # all child hints subscripting this literal is a subset of the set of
         # all child hints subscripting that literal.
         if isinstance(other, LiteralTypeHint):
-            return all(self_arg in other._args for self_arg in self._args)
+            # Note that literal objects are compared by both type *AND* equality
+            # (as mandated by PEP 586) rather than merely equality. Distinct
+            # literals of differing types frequently compare equal (e.g.,
+            # "Literal[1]" is *NOT* a subhint of "Literal[True]", despite
+            # "1 == True").
+            return all(
+                any(
+                    type(self_arg) is type(other_arg) and self_arg == other_arg
+                    for other_arg in other._args
+                )
+                for self_arg in self._args
+            )
         # Else, the passed hint is *NOT* also a literal.
 
         # Return true only if either...
